@@ -464,7 +464,22 @@ struct Slot {
     key_lo: AtomicU64,
     key_hi: AtomicU64,
     active: AtomicBool,
-    _pad: [u64; 12],
+    tid: AtomicU64,
+    _pad: [u64; 11],
+}
+
+/// kernel thread id of the calling thread (from the /proc/thread-self link), 0 if unavailable
+fn own_tid() -> u64 {
+    std::fs::read_link("/proc/thread-self").ok().and_then(|p| p.file_name().and_then(|f| f.to_str().and_then(|s| s.parse().ok()))).unwrap_or(0)
+}
+
+/// CPU time (user + system, in clock ticks of 10 ms) consumed so far by a thread of this process
+fn thread_cpu_ticks(tid: u64) -> Option<u64> {
+    let s = std::fs::read_to_string(format!("/proc/self/task/{tid}/stat")).ok()?;
+    let rest = &s[s.rfind(')')? + 2..]; // fields after "(comm) "
+    let f: Vec<&str> = rest.split_whitespace().collect();
+    // rest starts at field 3 (state); utime = field 14, stime = field 15
+    Some(f.get(11)?.parse::<u64>().ok()? + f.get(12)?.parse::<u64>().ok()?)
 }
 
 #[inline]
@@ -494,7 +509,7 @@ pub fn run_cell(cfg: &Cfg, cell: &CellDef, findings: &[Finding], on_hang: &(dyn 
     let next = AtomicU64::new(0);
     let nthreads = cfg.threads.max(1);
     let slots: Vec<Slot> = (0..nthreads)
-        .map(|_| Slot { seq: AtomicU64::new(0), key_lo: AtomicU64::new(0), key_hi: AtomicU64::new(0), active: AtomicBool::new(false), _pad: [0; 12] })
+        .map(|_| Slot { seq: AtomicU64::new(0), key_lo: AtomicU64::new(0), key_hi: AtomicU64::new(0), active: AtomicBool::new(false), tid: AtomicU64::new(0), _pad: [0; 11] })
         .collect();
     let done = AtomicBool::new(false);
     let merged: Mutex<CellStats> = Mutex::new(CellStats { name: cell.name.clone(), desc: cell.desc.clone(), complete: cell.complete, ..Default::default() });
@@ -507,7 +522,10 @@ pub fn run_cell(cfg: &Cfg, cell: &CellDef, findings: &[Finding], on_hang: &(dyn 
     std::thread::scope(|s| {
         // watchdog
         s.spawn(|| {
-            let mut last: Vec<(u64, u32)> = vec![(u64::MAX, 0); nthreads];
+            // A case counts as non-terminating when its thread has burnt 10 s of *CPU time* on it without
+            // returning (the code under test never blocks, so a hang is a spin); CPU time instead of wall time
+            // keeps the verdict independent of machine load. Fallback: 600 s of wall time without progress.
+            let mut last: Vec<(u64, u32, Option<u64>)> = vec![(u64::MAX, 0, None); nthreads];
             let mut tick = 0u32;
             while !done.load(Ordering::Relaxed) {
                 std::thread::sleep(Duration::from_millis(5));
@@ -517,14 +535,18 @@ pub fn run_cell(cfg: &Cfg, cell: &CellDef, findings: &[Finding], on_hang: &(dyn 
                 }
                 for (t, sl) in slots.iter().enumerate() {
                     if !sl.active.load(Ordering::Relaxed) {
-                        last[t] = (u64::MAX, 0);
+                        last[t] = (u64::MAX, 0, None);
                         continue;
                     }
                     let q = sl.seq.load(Ordering::Relaxed);
+                    let cpu = thread_cpu_ticks(sl.tid.load(Ordering::Relaxed));
                     if q == last[t].0 {
                         last[t].1 += 1;
-                        if last[t].1 >= 20 {
-                            // 10 s without progress on one case: non-termination
+                        let spun = match (last[t].2, cpu) {
+                            (Some(c0), Some(c1)) => c1.saturating_sub(c0) >= 1000, // 10 s of CPU time on one case
+                            _ => last[t].1 >= 20,                                // no /proc: 10 s of wall time
+                        };
+                        if spun || last[t].1 >= 1200 {
                             let key = (sl.key_hi.load(Ordering::Relaxed) as u128) << 64 | sl.key_lo.load(Ordering::Relaxed) as u128;
                             let mut st = merged.lock().unwrap().clone();
                             st.hang = Some(key);
@@ -533,7 +555,7 @@ pub fn run_cell(cfg: &Cfg, cell: &CellDef, findings: &[Finding], on_hang: &(dyn 
                             std::process::exit(1);
                         }
                     } else {
-                        last[t] = (q, 0);
+                        last[t] = (q, 0, cpu);
                     }
                 }
             }
@@ -549,6 +571,7 @@ pub fn run_cell(cfg: &Cfg, cell: &CellDef, findings: &[Finding], on_hang: &(dyn 
             let dump = &dump;
             handles.push(s.spawn(move || {
                 let sl = &slots[t];
+                sl.tid.store(own_tid(), Ordering::Relaxed);
                 let mut st = CellStats::default();
                 let mut seq = 0u64;
                 loop {
@@ -791,8 +814,8 @@ pub fn run_cells(cfg: &Cfg, cells: Vec<CellDef>, extra: Extra, rep: Report) -> i
             let key = st.hang.unwrap();
             std::fs::create_dir_all(&rd).ok();
             let path = format!("{}/{}.hang.json", rd, sanitize(&cname));
-            let _ = std::fs::write(&path, serde_json::to_string_pretty(&json!({"property": prop, "cell": cname, "key": hex(key), "observed": "no return within 10 s (non-termination)", "note": "replaying this case hangs; run it under `timeout`"})).unwrap());
-            println!("cell {cname}: case key={} did not return within 10 s", hex(key));
+            let _ = std::fs::write(&path, serde_json::to_string_pretty(&json!({"property": prop, "cell": cname, "key": hex(key), "observed": "no return after 10 s of CPU time on this one case (non-termination)", "note": "replaying this case hangs; run it under `timeout`"})).unwrap());
+            println!("cell {cname}: case key={} did not return within 10 s of CPU time", hex(key));
             println!("VIOLATION property={} replay={}", prop, path);
         };
         let st = run_cell(cfg, cell, &findings, &on_hang);
